@@ -397,3 +397,38 @@ def dual_solve(theta, regions, attrs, shape, edges, maxiter=20000):
     D, P = tables(lam)
     infeas = max([float(np.abs(Ms[p, r] @ P[p] - P[r]).max()) for p, r in edges] + [0.0])
     return D, {r: P[r].reshape(region_shape(r, attrs, shape)) for r in regions}, infeas
+
+
+# ----------------------------------------------------------------------------- C18: exact optimum for disjoint cliques
+def project_simplex(v, total):
+    """Euclidean projection of v onto {x >= 0, sum x = total} (sort-based)."""
+    n = v.size
+    u = np.sort(v)[::-1]
+    css = np.cumsum(u) - total
+    k = np.nonzero(u - css / np.arange(1, n + 1) > 0)[0][-1]
+    tau = css[k] / (k + 1.0)
+    return np.maximum(v - tau, 0.0)
+
+
+def simplex_least_squares(Qs, ys, sigmas, total, iters=20000):
+    """min 0.5 * sum_i ||(Q_i x - y_i)/sigma_i||^2 over {x >= 0, sum x = total} by accelerated projected gradient
+    (dense, tiny).  -> (x, loss, optimality gap bound from the Frank-Wolfe certificate)."""
+    A = np.vstack([(np.asarray(Q.todense()) if hasattr(Q, 'todense') else np.asarray(Q, dtype=float)) / s for Q, s in zip(Qs, sigmas)])
+    b = np.concatenate([np.asarray(y, dtype=float) / s for y, s in zip(ys, sigmas)])
+    n = A.shape[1]
+    H = A.T @ A
+    Lip = max(float(np.linalg.eigvalsh(H)[-1]), 1e-12)
+    x = np.full(n, total / n)
+    z, t = x.copy(), 1.0
+    f = lambda u: 0.5 * float(np.sum((A @ u - b) ** 2))
+    for _ in range(iters):
+        g = H @ z - A.T @ b
+        xn = project_simplex(z - g / Lip, total)
+        tn = 0.5 * (1 + np.sqrt(1 + 4 * t * t))
+        z = xn + (t - 1) / tn * (xn - x)
+        if f(xn) > f(x):                 # restart
+            z, tn = xn.copy(), 1.0
+        x, t = xn, tn
+    g = H @ x - A.T @ b
+    gap = float(g @ x - total * g.min())   # f(x) - f* <= <g, x - s> for the best vertex s
+    return x, f(x), gap
